@@ -63,6 +63,7 @@ def leftover_partition_stage(ctx, cov):
                     kept = fmt_engine.save_case(ctx, op, "leftover%d" % bad)
                     violation(ctx, "after recovering a device that holds two intact generations of a key: " + why,
                               "# image (as it was before the open): see the path in the line below\n%s\n# the store's own report: %s\n" % (kept, im[:900]), tag="leftover")
+    fmt_engine.rep_lines(ctx, outs, cov, "after recovering a device that holds two intact generations of a key")
     ctx.log("leftover partition stage: %d recovered two-generation devices, %d with a broken partition" % (n, bad))
     cov["two_generation_devices_partitioned"] = n
     cov["two_generation_partition_failures"] = bad
